@@ -1209,7 +1209,9 @@ class OP4:
         vals = matrix[3] if isinstance(matrix, tuple) else matrix
         vals = vals.data if sp.issparse(vals) else np.asarray(vals)
         vals = np.abs(np.hstack((vals.real.ravel(), vals.imag.ravel())))
-        if ((vals >= 1e100) | ((vals < 1e-99) & (vals > 0.0))).any():
+        # (check the largest value as written: it can round up to 1.E+100)
+        vmax = float(f"{np.nanmax(vals, initial=0.0):.{digits}E}")
+        if vmax >= 1e100 or ((vals < 1e-99) & (vals > 0.0)).any():
             numlen += 1
         perline = 80 // numlen
 
